@@ -100,6 +100,36 @@ P_S0, P_E0, P_E1, P_CNT, P_OUT, P_ID, P_INO = range(7)
 KINDS = {0: "back-to-back", 1: "slow handler", 2: "busy keep-alive", 3: "idle keep-alive"}
 
 
+# Hook points that carry the correspondence (cargo feature verif-hooks; commits in hooks.json).  A refactor of kvarn that moves one of
+# them has to move it to the place that still has the meaning given here, else the check reports a log that is not a trace of the model
+# although the code may be right.  `closed` = the harness gives the baton to the thread that passes the point: the segment up to the
+# thread's next point contains an access to shared state.
+HOOK_POINTS = {
+    "ex.bind": "execute(): before the socket of a listener is created (value: port); closed; not a label, delay point",
+    "hx.listen": "execute(): the socket is bound, before listen() (value: port); closed; label HMain PSpawn j -> PListen j",
+    "ex.bound": "execute(): the socket is in listening state and registered with the manager (value: port); label HMain PListen j -> "
+                "PSpawn (j+1); must be passed by the thread that later passes ctl.send (else: HBind, not enabled in the repaired code)",
+    "ctl.send": "ctl::listen: before send_to('shutdown no-wait'); its thread is 'the start-up program' of the instance; label HMain "
+                "PSpawn n -> PWait k / PRm",
+    "ctl.got": "ctl::listen: the reply (0 NotFound, 1 ok, 2 Error or another reply); 1: label HMain PWait k -> PRm; 2: no label (rejected)",
+    "ctl.started": "ctl::listen: start_at has returned; labels HMain PRm -> PBindCtl -> PRunning",
+    "ctl.recv": "shutdown plugin entered (value: no-wait); label HRecv; from here on the instance is 'told'",
+    "ctl.reply": "shutdown plugin returns; label HReply",
+    "sh.enter sh.set sh.init sh.swap sh.notify sh.exit": "Manager::shutdown, C10's caller program; labels HSd (SStep 0); sh.set = the flag is set",
+    "ap.poll ap.flag ap.waker ap.checked": "the accept future, C10's listener program; labels HSd (LStep j)",
+    "al.top al.got al.counted al.shut al.exit": "the accept loop (al.top value: own port, al.got/al.counted value: peer port); labels HSd "
+                                                "(LStep j / LTake j / EConn j); al.shut = the listener is about to be dropped",
+    "co.start": "first point of a connection task (value: peer port): ties the task to the stream counted at al.counted",
+    "hx.req": "handle_connection: a request has been read (value: peer port); label HReq",
+    "hx.resp": "handle_connection: the answer is done, before continue_accepting(); closed; no label",
+    "hx.cont": "handle_connection: what continue_accepting() returned (1 go on, 0 leave the loop); label HResp",
+    "rm.enter rm.dec rm.flag rm.exit": "remove_connection (from the drop guard of an accept loop or a connection task); labels HSd (LStep j / "
+                                       "CStep c), for a connection task preceded by HKaEnd when the loop was left without hx.cont = 0",
+    "ct.start ct.sent ct.loop ct.exit": "the completion task spawned by _shutdown; labels HSd KStep; ct.exit = the shutdown-complete signal "
+                                        "has been sent",
+}
+
+
 def hsd(i, kind, a):
     return xl(xn(6), xn(i), xl(xn(kind), xn(a)))
 
@@ -812,54 +842,87 @@ def extra_coverage(cases, impl, model, spec):
     return {"handover_runs": tot}
 
 
-RULE = ("Chains of 1-4 handovers between real servers in one process (RunConfig::execute on 1-3 IPv4 loopback ports, the same "
-        "control-socket path, one tokio runtime per instance: current-thread or multi-thread with 2 workers), built with the cargo feature "
-        "verif-hooks. The hook points (listener bind, handover message sent / received / replied, control socket started, and C10's "
-        "points in shutdown(), the accept future, the accept loop, remove_connection and the completion task) are serialised by a baton: "
-        "between two hook points that enclose an access to shared state only one thread runs, so the order of the log is the order of "
-        "the accesses; before each point a thread waits a seeded random time (0-600 us) and, at the bind / send / close points, a "
-        "delay of 0-300 ms taken from the case. A successor is started when its predecessor answers on the control socket. One "
-        "uninstrumented client thread per port requests back to back, 0-3 requests with a slow handler (60-400 ms) are in flight "
-        "across every switch; a prober asks the control socket who answers (plugin 'whoami'). Checks per run: (a) oracle independent "
-        "of the model: no connect refused, every request on a connection that an instance accepted (peer port seen at the accept hook) "
-        "answered completely, nothing unanswered after 8 s, from the bind/close hook events every port bound by some instance at "
-        "every moment and no listener closed before the successor has bound every port, execute() returns, the predecessor's wait() "
-        "resolves within slow handler + 10 s, the control socket is answered by instances in increasing order and finally by the newest, "
-        "the ports refuse after the last shutdown; (b) trace inclusion: the log, mapped to labels with the program counter each hook "
-        "reported, is accepted step by step by Model/Handover.v's hstep (extracted), with every port served in every state along it; "
-        "(c) the run's summary equals the model's prediction for the scenario (hdrain). Connections reset in the kernel's accept queue of "
-        "a closing listener are counted separately (not modelled). distinct_nontrivial counts scenarios by ports/handovers/runtime")
+RULE = ("Chains of 1-5 handovers between real servers in one process (RunConfig::execute on 1-3 loopback ports, IPv4 only or both address "
+        "families = two listening sockets per port; the same control-socket path; one tokio runtime per instance: current-thread or "
+        "multi-thread with 2 workers), built with the cargo feature verif-hooks. An instance is a process: its thread drops the runtime "
+        "with every task as soon as its wait() has returned. The hook points (HOOK_POINTS in driver/props/c11.py: bind / listen / listening, "
+        "handover message sent / received / replied, start_at returned, request read / answered / keep-alive re-check, and C10's points in "
+        "shutdown(), the accept future, the accept loop, remove_connection and the completion task) are serialised by a baton: between two "
+        "hook points that enclose an access to shared state only one thread runs, so the order of the log is the order of the accesses; "
+        "before each point a thread waits a seeded random time (0-600 us) and, at up to three hook points drawn from ALL points, a delay of "
+        "5-300 ms taken from the case (applied to the instance that is starting and to instances that are being replaced). A successor is "
+        "started when its predecessor answers on the control socket, or (eager) as soon as execute() of its predecessor has returned, the "
+        "predecessor's main task blocking its thread for 0-60 ms; optionally a stale socket file lies at the path before the first instance. "
+        "Uninstrumented clients: per port and family a back-to-back client (one request per connection), 0-3 requests with a slow handler "
+        "(60-400 ms) in flight across every switch, per port a keep-alive client (a request every 2-8 ms on one connection for as long as "
+        "the server keeps it), an idle keep-alive connection (one request, then silence until the server closes it); every answer names the "
+        "instance that wrote it. wait() is called on every instance right after execute(), when it is told to shut down, and after its "
+        "shutdown has completed. A prober asks the control socket who answers (plugin 'whoami') every 2 ms and records every outcome. "
+        "Checks per run: (a) oracle independent of the model: no connect refused; every request on a connection that an instance accepted "
+        "(peer port seen at the accept hook) or that an instance read (request hook) answered completely — a request written on a kept-alive "
+        "connection after the server closed it is not one; the answer names the accepting instance; on one connection an instance answers at "
+        "most one request sent after it set its shutdown flag; an idle connection is closed by the server; from the listen/close hook events "
+        "every port has a listening socket of some instance at every moment, no listener is closed and no instance is told before the successor "
+        "has every socket listening; execute() returns; all three wait() calls of every predecessor resolve (the first within slow handler + "
+        "15 s, the others within 5 s of it); the control socket is answered by instances in increasing order, finally by the newest, and from "
+        "an instance's first answer until it is told by that instance and nobody else at every probe (no NotFound, no Error); the ports refuse "
+        "after the last shutdown; (b) trace inclusion: the log, mapped to labels with the program counter each hook reported, is accepted "
+        "step by step by Model/Handover.v's hstep (extracted, variant hrepaired), with every socket's port served in every state along it; "
+        "(c) the run's summary equals the model's prediction for the scenario (hdrain + a late wait() on every predecessor). Complaints of "
+        "the kind 'did not happen within the time limit' become a verdict only when a second run of the case shows one again; a baton wait "
+        "of 20 s, a first instance that does not come up in 30 s and port trouble are harness trouble: run again, then counted and named as "
+        "not executed (more than 2: the check fails as a harness error). Connections reset in the kernel's accept queue of a closing "
+        "listener are counted separately (not modelled). distinct_nontrivial counts scenarios by ports/handovers/runtime/families/keep-alive")
+
 ASSUMPTIONS = [
-    "a new instance is started only when the newest one is up (execute() returned and its control socket is bound): the model's HStart "
-    "is enabled only then; a successor started before its predecessor's control-socket task has bound the path would not find it "
-    "(start_at binds in a spawned task) — not exercised, not claimed",
+    "a new instance is started only when execute() of the newest one has returned (the model's HStart is enabled only then). Starts that "
+    "overlap the start-up of the previous instance (two instances inside execute() at once) are not modelled and not run: both would send "
+    "'shutdown no-wait' to the same predecessor and each would remove the other's socket file in start_at — stated, not claimed",
     "the only caller of shutdown() on an instance is the control socket's shutdown plugin (a second call, e.g. from a signal handler, would "
-    "remove whatever socket file is at the path, also the successor's; kvarn_signal re-binds after 100 ms when its file is deleted)",
-    "C10's assumptions for each instance's shutdown machine: sequentially consistent interleavings, every handler ends",
+    "remove whatever socket file is at the path, also the successor's; kvarn_signal re-binds after ~200 ms when its file is deleted — that "
+    "watcher is not in the model)",
+    "the predecessor is healthy and has the stock shutdown plugin: the exits of ctl::listen on Response::Error or on a reply that is not 'ok' "
+    "(the new instance then runs without a control socket) are not transitions of the model; the run rejects a log that contains one. The "
+    "NotFound exit (no file, or a stale file nobody listens on) is modelled and run",
+    "C10's assumptions for each instance's shutdown machine: sequentially consistent interleavings, every handler ends; a kept-alive "
+    "connection ends at the latest when no request head arrives for 5 s (application.rs; label HKaEnd is always enabled while the loop waits)",
+    "HTTP/1.1 connections only (the request loop awaits each answer before the re-check; HTTP/2 and HTTP/3 connections spawn their "
+    "requests and are not run); no TLS listener, no HTTP/3 (UDP) listener",
     "Linux SO_REUSEPORT semantics are not modelled: which listener a connection is queued on, and the reset of connections still queued on a "
     "listener when it is closed (tests/shutdown.rs ignores ConnectionReset for the same reason); 'accepted' = returned by accept()",
-    "uring builds (one listener per thread, created inside the thread) are not covered by the fix nor by the run",
+    "uring builds (one listener per thread, created inside the thread) and builds without graceful-shutdown (ctl::listen runs before the "
+    "listeners are created) are not covered by the fixes nor by the run",
 ]
-TRUSTED = ["modelled: src/lib.rs RunConfig::execute (listener creation, accept-task spawn, ctl::listen call), src/ctl.rs listen + shutdown "
-           "plugin, signal/src/lib.rs send_to/start_at (connect, reply, remove file, bind in task), src/shutdown.rs shutdown() removing the "
-           "socket file; per instance C10's model of the shutdown manager",
-           "hook points: kvarn commits listed in hooks.json; the baton, the clients and the log-to-label mapping (driver/props/c11.py "
-           "Mapper) are harness code: a wrong mapping can only make the model reject a log"]
-LEVEL_TEXT = ("Machine-checked Coq theorems over an executable transition system of a chain of instances (any number of ports, any number of "
-              "successive handovers, every schedule), each instance embedding C10's transition system of its shutdown manager: in every "
-              "reachable state of the repaired code every port is bound and listening in some instance (always_bound); a listener is closed "
-              "only when the successor exists and has bound every port (successor_binds_first); for every instance the shutdown-complete "
-              "signal implies that no accepted connection is unfinished and no listener is bound (handover_drains) and every instance that "
-              "received the handover message has completed whenever nothing can move (handover_no_hang: its wait() resolves); the path of the "
-              "control socket is answered by the newest instance, or by its predecessor only while the newest is still inside execute() "
-              "(ctl_successor_only); chain states all clauses for chains of any length. For kvarn 0.6.3 as found (listeners bound inside "
-              "the spawned accept tasks) always_bound is refuted by an explicit schedule, observed on the real code (230 refused connects "
-              "with a 300 ms delay at the bind point on a multi-thread runtime) and repaired by one fix commit. PARTIAL: what the kernel does with "
+TRUSTED = ["modelled: src/lib.rs RunConfig::execute (socket creation, bind, listen, accept-task spawn, ctl::listen call), accept(), the request "
+           "loop of handle_connection (request read, continue_accepting() after every answer); src/ctl.rs listen + shutdown plugin; "
+           "signal/src/lib.rs send_to/start_at (connect, reply, remove file, bind before returning); src/shutdown.rs shutdown() removing the "
+           "socket file, wait() on a receiver that has seen nothing; per instance C10's model of the shutdown manager",
+           "hook points: kvarn commits listed in hooks.json, their meaning in HOOK_POINTS (driver/props/c11.py); the baton, the clients, the "
+           "waiters, the prober and the log-to-label mapping (Mapper; 'the start-up program' of an instance = the thread that passes ctl.send) "
+           "are harness code: a wrong mapping can only make the model reject a log"]
+LEVEL_TEXT = ("Machine-checked Coq theorems over an executable transition system of a chain of instances (any number of listening sockets, any "
+              "number of successive handovers, every schedule at hook granularity), each instance embedding C10's transition system of its "
+              "shutdown manager and running the keep-alive request loop on every connection: in every reachable state of the repaired code "
+              "every socket's port is bound AND listening in some instance (always_bound; bind and listen are separate steps); an instance is "
+              "told to shut down — the message is on its control socket or its plugin has run — only when the successor exists and has every "
+              "socket listening (told_after_bound), and a listener is closed only then (successor_binds_first); for every instance the "
+              "shutdown-complete signal implies that no accepted connection is unfinished and no listener is bound (handover_drains); a "
+              "connection reads at most one request after its instance's shutdown flag was set (keepalive_one_more); every instance that "
+              "received the handover message has completed whenever nothing can move, kept-alive connections included, and every wait() called "
+              "at any time has resolved (handover_no_hang); a wait() polled after the signal resolves at that poll whenever it was called "
+              "(late_wait_resolves); the control-socket path is answered by the newest instance, or by its predecessor only while the newest is "
+              "still inside execute() (ctl_successor_only), it IS answered by the newest whenever nothing can move (ctl_successor_answers) and "
+              "no step of any thread takes it away from the newest (path_stable); chain states all clauses for chains of any length. Two "
+              "defects of kvarn 0.6.3 are refuted on the faithful model, observed on the real code and repaired by one fix commit each: "
+              "listeners bound inside the spawned accept tasks (always_bound_today_refuted; 230 refused connects with a 300 ms delay at the "
+              "bind point) and the control socket bound by a spawned task after execute() has returned (eager_start_refuted: a successor "
+              "started right then finds no socket, two instances stay for ever, the older one answers). PARTIAL: what the kernel does with "
               "connections queued on a SO_REUSEPORT listener that is closed (they are reset: seen in the runs, counted, not modelled) and "
-              "inherited descriptors are outside the model; only the ordering of bind / notify / close and the drain logic are proved. Not "
-              "proved: that the successor's socket file stays at the path afterwards (checked by the run), termination (as in C10). The "
-              "model is tied to the repository on every run by trace inclusion of the serialised hook log of real handovers.")
-LEVEL_NOTE = ("Trusted: Coq kernel; extraction reduced by an in-kernel recheck sample; the transcription of execute()/ctl::listen/start_at as "
-              "validated by trace inclusion (what happens between two hook points is assumed atomic w.r.t. the other threads); the mapping "
-              "of hook events to labels; the Linux TCP stack; C10's trusted base for the embedded machine.")
+              "inherited descriptors are outside the model; only the ordering of bind / listen / notify / close, the drain logic, the "
+              "keep-alive re-check and the path are proved. Not proved: termination (quiescence form only, as in C10); overlapping starts "
+              "and the failure exits of ctl::listen (assumptions). The model is tied to the repository on every run by trace inclusion of "
+              "the serialised hook log of real handovers.")
+LEVEL_NOTE = ("Trusted: Coq kernel; extraction reduced by an in-kernel recheck sample; the transcription of execute()/ctl::listen/start_at/"
+              "handle_connection as validated by trace inclusion (what happens between two hook points is assumed atomic w.r.t. the other "
+              "threads); the mapping of hook events to labels; the Linux TCP and unix-socket stack; C10's trusted base for the embedded machine.")
 TECHNIQUE = "proof (inductive invariant over an LTS embedding C10's LTS) + trace inclusion of serialised hook logs + independent client oracle"
